@@ -17,6 +17,7 @@ package ggql
 import (
 	"io"
 	"strings"
+	"time"
 )
 
 // Arg is a GraphQL Arg or InputValue.
@@ -98,6 +99,9 @@ func (a *Arg) Resolve(field *Field, args map[string]interface{}) (result interfa
 		switch tv := result.(type) {
 		case Symbol:
 			result = string(tv)
+		case time.Time:
+			// A Time default is kept as the coerced value.
+			result = tv.Format(time.RFC3339Nano)
 		case []interface{}, map[string]interface{}:
 			// A list or an object can only be given as it is written in SDL.
 			var b strings.Builder
